@@ -126,6 +126,7 @@ type listener struct {
 }
 
 func (l *listener) Close() error {
+	defer verifHook("l.close", nil)
 	l.closed.Store(true)
 	return l.Listener.Close()
 }
@@ -143,6 +144,7 @@ func (l *listener) loop() {
 			break
 		}
 
+		verifHook("l.accept", conn)
 		l.wg.Add(1)
 		go l.handle(conn)
 	}
@@ -151,10 +153,13 @@ func (l *listener) loop() {
 	go func() {
 		l.wg.Wait()
 		close(l.connChan)
+		verifHook("l.closeChan", nil)
 	}()
 	close(l.done)
+	verifHook("l.loopExit", nil)
 	for conn := range l.connChan {
 		_ = conn.Close()
+		verifHook("l.drain", conn)
 	}
 }
 
@@ -167,6 +172,7 @@ func (l *listener) handle(conn net.Conn) {
 		l.wg.Done()
 		if !errors.Is(err, errHijacked) {
 			_ = conn.Close()
+			verifHook("l.finish", conn)
 		}
 	}()
 
@@ -207,6 +213,7 @@ func (l *listener) Accept() (net.Conn, error) {
 	select {
 	case conn, ok := <-l.connChan:
 		if ok {
+			verifHook("l.consume", conn)
 			return conn, nil
 		}
 		return nil, net.ErrClosed
@@ -222,6 +229,8 @@ func (l *listener) pipeConnection(conn *Connection) error {
 	if val := conn.GetVar("tls_connection_states"); val != nil {
 		connectionStates = val.([]*tls.ConnectionState)
 	}
+	verifHook("l.pipeStart", conn)
+	defer verifHook("l.pipeSend", conn)
 	if len(connectionStates) > 0 {
 		l.connChan <- &tlsConnection{
 			Conn:      conn,
